@@ -92,6 +92,26 @@ def reap():
             time.sleep(0.05)
 
 
+def server_opens_first(leg, sb, tag, replay):
+    """The next process to open the store after a kill is the server itself, some minutes later (as
+    after a power cut), not this rig's sqlite3: whatever the kill left next to the database (a hot
+    rollback journal) is backdated and erbium-dhcp is started and stopped before anything is inspected."""
+    j = DB + "-journal"
+    if not os.path.exists(j):
+        leg.count("server_first_no_journal_left", 1)
+        return
+    old = time.time() - 180
+    os.utime(j, (old, old))
+    leg.count("server_first_with_hot_journal_left", 1)
+    reap()
+    p = sb.start("erbium-dhcp", CONF)
+    time.sleep(0.7)
+    if not p.alive() and ("Pool Error" in p.text() or "atabase" in p.text()):
+        leg.violation("C18/server-does-not-restart-on-the-store", "%s (server first, journal left by the kill): %s" % (tag, p.text()[-300:]), replay)
+    p.stop()
+    reap()
+
+
 def renew_check(leg, sb, received, tag, replay):
     """Restart without faults: every client that had a reply in hand gets the same address again."""
     reap()
@@ -222,6 +242,8 @@ def main():
                 leg.count("kills_fired_%s" % sc, 1)
                 phase = "before-any-reply" if not received else "after-%d-replies" % len(received)
                 leg.count("kills_%s" % phase, 1)
+                if n % 2 == 0:
+                    server_opens_first(leg, sb, tag, replay)
                 inspect(leg, received, tag, replay)
                 if received or n % 5 == 1:
                     renew_check(leg, sb, received, tag, replay)
@@ -252,6 +274,8 @@ def main():
             leg.count("random_kills", 1)
             tag = "random#%d" % k
             replay = {"engine": "c18-e2e", "random_kill": k, "received": {a.hex(): v for a, v in received.items()}}
+            if k % 2 == 0:
+                server_opens_first(leg, sb, tag, replay)
             inspect(leg, received, tag, replay)
             renew_check(leg, sb, received, tag, replay)
         leg.count("kill_points_fired", fired_total)
